@@ -32,7 +32,7 @@ pub fn run(case: &Value, _params: &Params, out: &mut Vec<Value>) {
         "maybenan" => {
             let v = jint(case, "v"); // 0 = missing
             let o: Option<i32> = if v == 0 { None } else { Some(v as i32) };
-            let f: f64 = if v == 0 { f64::NAN } else { v as f64 };
+            let f: f64 = if v == 0 { nan64() } else { v as f64 };
             let f_from_opt: i64 = { let r = f64::from_not_nan_opt(f.try_as_not_nan().cloned()); if f64::is_nan(r) { 0 } else { r as i64 } };
             let f_from_ref: i64 = { let r = *f64::from_not_nan_ref_opt(f.try_as_not_nan()); if f64::is_nan(r) { 0 } else { r as i64 } };
             let o_from_opt: i64 = Option::<i32>::from_not_nan_opt(if v == 0 { None } else { Some(NN::new(v as i32)) }).map(|t| t as i64).unwrap_or(0);
